@@ -131,13 +131,14 @@ class Seg:
     whole-segment identity, never mixed in one obligation without the explicit link (Ctx.link_seg).
     """
 
-    __slots__ = ("seq", "n", "fn", "off")
+    __slots__ = ("seq", "n", "fn", "off", "tag")
 
-    def __init__(self, seq, n, fn=None, off=0):
+    def __init__(self, seq, n, fn=None, off=0, tag=None):
         self.seq = seq
         self.n = n
         self.fn = fn
         self.off = off
+        self.tag = tag  # e.g. ("leb", value, signed): this segment is the LEB128 encoding of value
 
     def at(self, i):
         """byte i of the segment (i: int or z3 Int)"""
@@ -297,6 +298,17 @@ class SBytes:
                 break
             k = k + (it.n if isinstance(it, Seg) else 1)
         return SBytes([Seg(z3.Extract(self.seq(), zint(lo), zint(n)), n)])
+
+    def item_at(self, lo):
+        """The rope item that starts exactly at offset lo (structurally), or None."""
+        zl = z3.simplify(zint(lo))
+        k = 0
+        for it in self.items:
+            zk = z3.simplify(zint(k)) if not isinstance(k, int) else z3.IntVal(k)
+            if z3.eq(zk, zl):
+                return it
+            k = k + (it.n if isinstance(it, Seg) else 1)
+        return None
 
     def _navigate(self, lo, n):
         if len(self.items) <= 1:
